@@ -78,6 +78,16 @@ type storePlan struct {
 	Tol       int          `json:"tol"`
 	QueryMode string       `json:"query_mode"` // "all" (after every step) | "end"
 	Histories [][]histStep `json:"histories"`
+	Pad       int          `json:"pad"`
+	SameName  bool         `json:"same_name"` // versions of a payload group share their Name (no scan queries then)
+	VerBase   *int         `json:"ver_base"`  // fixed start of the payload cycle for every history (default: by history index)
+}
+
+func (p *storePlan) baseOf(hi int) int {
+	if p.VerBase != nil {
+		return *p.VerBase
+	}
+	return (hi * 5) % 44
 }
 
 // shapes of the query topologies.  tA and tB share a fuzzy bucket (fX) but
@@ -154,24 +164,42 @@ func newNameMap() *nameMap {
 }
 
 // payload builds the complete Go signature of driver-version ver.
+//
+// Versions come in groups of four: ver = 4g + j.  j = 0 is the group's base content; j = 1..3
+// differ from the base in EXACTLY ONE field, and the field rotates with g over every field of a
+// signature (description, severity, category, counts, metadata, calls, patterns, the two
+// control-flow hints).  Re-adding an ID therefore regularly replaces a signature by one that
+// differs in a single field — the case "skip the write, nothing changed" shortcuts get wrong.
+// The Name does not identify the version (project() compares whole contents).
 func payload(ver int, nm *nameMap, a absSig) detection.Signature {
+	return payloadN(ver, ver, nm, a, false)
+}
+
+// payloadN: content of cycle position pos; the Name is "v<ver>" (scan alerts carry only the name, so
+// it identifies the version) unless sameName, where the versions of a group share the name "g<g>".
+func payloadN(pos, ver int, nm *nameMap, a absSig, sameName bool) detection.Signature {
+	g, j := pos/4, pos%4
+	name := "v" + strconv.Itoa(ver)
+	if sameName {
+		name = "g" + strconv.Itoa(g)
+	}
 	s := detection.Signature{
 		ID:               a.ID,
-		Name:             "v" + strconv.Itoa(ver),
-		Description:      fmt.Sprintf("payload %d — ünïcode ✓ \"quoted\" \\ back", ver),
-		Severity:         []string{"LOW", "HIGH", "CRITICAL"}[ver%3],
-		Category:         []string{"beacon", "", "dropper"}[ver%3],
+		Name:             name,
+		Description:      fmt.Sprintf("payload %d — ünïcode ✓ \"quoted\" \\ back", g),
+		Severity:         []string{"LOW", "HIGH", "CRITICAL"}[g%3],
+		Category:         []string{"beacon", "", "dropper"}[g%3],
 		TopologyHash:     nm.real(a.Topo, "h"),
 		FuzzyHash:        nm.real(a.Fuzzy, "f"),
 		EntropyScore:     float64(a.Ent) / entUnit,
 		EntropyTolerance: float64(a.Tol) / entUnit,
-		NodeCount:        3 + ver%4,
-		LoopDepth:        ver % 3,
+		NodeCount:        3 + g%4,
+		LoopDepth:        g % 3,
 		Metadata: detection.SignatureMetadata{
-			Author: "verif", Created: "2026-01-01", References: []string{"ref-" + strconv.Itoa(ver)},
+			Author: "verif", Created: "2026-01-01", References: []string{"ref-" + strconv.Itoa(g)},
 		},
 	}
-	switch ver % 4 {
+	switch g % 4 {
 	case 0:
 		s.IdentifyingFeatures.RequiredCalls = []string{"net.Dial"}
 	case 1:
@@ -180,9 +208,48 @@ func payload(ver int, nm *nameMap, a absSig) detection.Signature {
 	case 2:
 		s.IdentifyingFeatures.StringPatterns = []string{"/bin/sh", "nomatch"}
 		s.IdentifyingFeatures.ControlFlow = &detection.ControlFlowHints{HasInfiniteLoop: true}
+	case 3:
+		s.IdentifyingFeatures.ControlFlow = &detection.ControlFlowHints{HasReconnectLogic: true}
 	}
-	if ver%5 == 0 {
+	if g%5 == 0 {
 		s.Metadata.References = nil
+	}
+	if j == 0 {
+		return s
+	}
+	switch (3*g+j-1)%11 + 1 {
+	case 1:
+		s.Description += " (rev)"
+	case 2:
+		s.Severity = "MEDIUM"
+	case 3:
+		s.Category = "c2"
+	case 4:
+		s.NodeCount += 10
+	case 5:
+		s.LoopDepth++
+	case 6:
+		s.Metadata.Author = "verif2"
+	case 7:
+		s.Metadata.References = append(append([]string(nil), s.Metadata.References...), "extra-ref")
+	case 8:
+		s.IdentifyingFeatures.RequiredCalls = append(append([]string(nil), s.IdentifyingFeatures.RequiredCalls...), "time.Sleep")
+	case 9:
+		s.IdentifyingFeatures.StringPatterns = append(append([]string(nil), s.IdentifyingFeatures.StringPatterns...), "connect")
+	case 10:
+		cf := detection.ControlFlowHints{}
+		if s.IdentifyingFeatures.ControlFlow != nil {
+			cf = *s.IdentifyingFeatures.ControlFlow
+		}
+		cf.HasReconnectLogic = !cf.HasReconnectLogic
+		s.IdentifyingFeatures.ControlFlow = &cf
+	case 11:
+		cf := detection.ControlFlowHints{}
+		if s.IdentifyingFeatures.ControlFlow != nil {
+			cf = *s.IdentifyingFeatures.ControlFlow
+		}
+		cf.HasInfiniteLoop = !cf.HasInfiniteLoop
+		s.IdentifyingFeatures.ControlFlow = &cf
 	}
 	return s
 }
@@ -207,6 +274,8 @@ type storeDrv struct {
 	expPath string // where ExportToJSON writes (always on the OS file system)
 	drift   []map[string]any
 	steps   int
+	verBase int // offset into the payload cycle (differs per history)
+	pad     int // bytes appended to every description (plan.Pad)
 }
 
 func quantConf(c float64) (int, bool) {
@@ -254,19 +323,15 @@ func entToInt(x float64) int {
 // is -1 unless EVERY field equals the payload the driver stored.
 func (d *storeDrv) project(s *detection.Signature) map[string]any {
 	ver := -1
-	if strings.HasPrefix(s.Name, "v") {
-		if v, err := strconv.Atoi(s.Name[1:]); err == nil && v >= 0 && v < len(d.vers) {
-			ver = v
-		}
-	}
 	fp, rest := fpCount(s.Metadata.References)
-	if ver >= 0 {
-		want := d.vers[ver].sig
-		got := *s
-		got.Metadata.References = rest
-		// auto-generated IDs: the stored payload carries the resolved ID
-		if !sigEqual(&want, &got) {
-			ver = -1
+	got := *s
+	got.Metadata.References = rest
+	// the LATEST driver version whose complete content (auto-generated IDs resolved) equals
+	// what the store returned
+	for v := len(d.vers) - 1; v >= 0; v-- {
+		if d.vers[v].sig.ID == got.ID && sigEqual(&d.vers[v].sig, &got) {
+			ver = v
+			break
 		}
 	}
 	return map[string]any{
@@ -328,7 +393,11 @@ func (d *storeDrv) table(q absQuery, tolCfg float64) ([]map[string]any, bool) {
 
 func (d *storeDrv) newVer(a absSig) (int, *detection.Signature) {
 	ver := len(d.vers)
-	sig := payload(ver, d.nm, a)
+	sig := payloadN(d.verBase+ver, ver, d.nm, a, d.plan != nil && d.plan.SameName)
+	if d.pad > 0 {
+		// large records: one batch may exceed the store's internal batch-size limits
+		sig.Description += strings.Repeat("#", d.pad)
+	}
 	d.vers = append(d.vers, verInfo{abs: a, sig: sig})
 	cp := sig
 	return ver, &cp
@@ -611,6 +680,7 @@ func (k *absKeys) canon() map[string][]string {
 
 func (d *storeDrv) runHistory(hi int, h []histStep) error {
 	d.vers = nil
+	d.verBase, d.pad = d.plan.baseOf(hi), d.plan.Pad
 	d.theta, d.tol = d.plan.Theta, d.plan.Tol
 	base, err := os.MkdirTemp("", "vfstore")
 	if err != nil {
